@@ -320,8 +320,12 @@ def check(desc, run, res):
     rewrites = [run.t_start + rw['t'] for rw in desc.get('rewrites', [])]
     for (t, pv, ev, rel, armed, tgt, cfg) in run.samples:
         if rel != 'noFaultDetected':
-            # only configurations the object itself accepts are judged
+            # the generator builds valid configurations only (atomic default, values of the default's type or Null, specific
+            # times, priorities 1..16, a local target of the right type): an object that declares one of them faulty stops
+            # evaluating it, i.e. does not show the value the calendar dictates
             run.w.probe('config_rejected_by_object')
+            viol('C20.a', 'valid-config-rejected', 'the schedule object declares reliability %s for a valid configuration (exception priorities %r) and does not evaluate it'
+                 % (rel, sorted(e['priority'] for e in cfg['exceptions'])), rel=rel)
             return out
         dt = datetime.datetime(1970, 1, 1) + datetime.timedelta(seconds=t)
         ref = ref_value(cfg, dt)
@@ -638,7 +642,7 @@ def evidence(tier, seed, total):
             'components_stub': ['wall clock (virtual, starts at the seeded calendar instant; TZ=UTC)'],
         },
         'assumptions': ['the reference interpreter in bacsim/props/c20.py is a correct reading of clause 12.24', 'time-values inside one list ascend and exceptions have distinct priorities (the standard leaves the rest to interpretation)',
-                        'only configurations the object itself reports as noFaultDetected are judged', 'outside the effective period no present value is asserted, only that the interpreter stays alive and armed',
+                        'the generator builds valid configurations only; an object that declares one of them faulty is a violation', 'outside the effective period no present value is asserted, only that the interpreter stays alive and armed',
                         'samples that became due while the loop was stalled are skipped (staleness during a stall is expected)', 'no wall-clock steps (not in the property\'s quantifier)',
                         'the exhaustive 1900..2154 calendar sweep of the matchers is a pure-function enumeration and not claimed; the matchers are reached through the dates the runs visit'],
     }
